@@ -173,9 +173,6 @@ def _one_string(rng, tier):
     if rng.random() < 0.6:
         c['funcs'] = [[d, dict(t='red', name=rng.choice(REDS))]]
         c['via'] = 'reduce_dim'
-        for v in c['vars']:
-            if v['mask'] is not None and d not in v['dims']:
-                v['dtype'] = 'f8'            # one fill value (1e20) for the known-finding region
         if c['funcs'][0][1]['name'] == 'prod':
             for v in c['vars']:
                 v['data'] = [max(-2, min(2, x)) for x in v['data']]
@@ -185,7 +182,8 @@ def _one_string(rng, tier):
         c['funcs'] = [[d, dict(t='conv', mode=rng.choice(['full', 'same', 'valid']), ker=ker)]]
         c['via'] = 'convolve_dim'
         for v in c['vars']:
-            v['mask'] = None                 # convolve on masked lanes is outside the model
+            if d in v['dims']:
+                v['mask'] = None             # convolve on masked lanes is outside the model
     c['kind'] = c['via'] + '-' + _base(c['funcs'][0][1]).get('name', 'conv')
     return c
 
@@ -396,10 +394,9 @@ def coq_term(case, obs):
             C.natlist([dl[d] for d in v['dims']]), '; '.join(_cell_in(x, v['den']) for x in cells)))
     if extra_in:
         vs.append(extra_in)
-    fill = '(Some (Qmake 100000000000000000000 1))' if case.get('via') in ('reduce_dim', 'convolve_dim') else 'None'
-    return '(Case [%s] [%s] [%s] %s %s)' % (
+    return '(Case [%s] [%s] [%s] %s)' % (
         '; '.join(cdims), '; '.join(vs),
-        '; '.join('(%d%%nat, %s)' % (_did(d), _fdesc(f)) for d, f in case['funcs']), fill, o)
+        '; '.join('(%d%%nat, %s)' % (_did(d), _fdesc(f)) for d, f in case['funcs']), o)
 
 
 # ----------------------------------------------------------------------------- independent numpy oracle
@@ -454,9 +451,7 @@ def _same(exp, shape, cells):
 def py_check(case, obs):
     import numpy as np
     dl = dict(case['dims'])
-    named0 = set(d for d, _ in case['funcs'])
-    region = 1 if (case.get('via') in ('reduce_dim', 'convolve_dim') and any(
-        v['mask'] is not None and any(v['mask']) and not any(d in named0 for d in v['dims']) for v in case['vars'])) else 0
+    region = 0
     fd = {d: f for d, f in case['funcs']}
     malformed = any(d not in dl for d in fd) or any(
         f['t'] == 'red' and f['name'] not in ('sum', 'prod', 'min', 'max', 'mean', 'std', 'var') for f in fd.values())
@@ -561,9 +556,9 @@ LEVEL_TEXT = ('Theorems (Props/C03.v, all closed under the global context) over 
               'integer-valued under sum/prod/min/max/diff/sub-sampling/integer-kernel convolution while mean is fractional '
               '(C03_integer_lanes_stay_integer, C03_integer_vars_stay_integer, C03_mean_fractional). Tie H: library vs model on every '
               'generated case incl. exception classes, through PseudoNetCDFFile.applyAlongDimensions, the IOAPI wrapper (data, dims, '
-              'VGLVLS via the same model call) and the string forms reduce_dim/convolve_dim. One known finding is left, in the string forms '
-              'only (masked cells of variables lacking the dimension come back unmasked holding the fill value); the two defects of '
-              'applyAlongDimensions itself are repaired (known_findings fixed:, corpus cases).')
+              'VGLVLS via the same model call) and the string forms reduce_dim/convolve_dim. No known finding is left: the two defects of '
+              'applyAlongDimensions and the string forms\' unmasking of untouched variables are repaired (known_findings fixed:, corpus '
+              'cases).')
 LEVEL_NOTE = ('Trusted: Coq kernel + vm_compute; the harness; numpy axis semantics = NdApply.apply_axis (differentially validated). '
               'Not proved: absence of ValueError for well-formed files; std/var and convolve-on-masked are Python-oracle only; result '
               'dtypes are checked by the oracle, the model only proves the value class; IOAPI TFLAG/VAR-LIST metadata after the call is '
